@@ -571,8 +571,15 @@ func ruleScoreFlow(c *Ctx) {
 		key := "ApplyScoreChanges." + name + ".backwards"
 		okDir := false
 		if inc, ok := fs.Post.(*ast.IncDecStmt); ok && inc.Tok == token.DEC {
-			if init, ok := fs.Init.(*ast.AssignStmt); ok && len(init.Rhs) == 1 && strings.Contains(types.ExprString(init.Rhs[0]), "len(") && strings.Contains(types.ExprString(init.Rhs[0]), "- 1") {
-				okDir = true
+			// starts at len(<nodes>) - 1, in any spelling (possibly through a local)
+			if init, ok := fs.Init.(*ast.AssignStmt); ok && len(init.Rhs) == 1 {
+				if p, ok := exprPoly(info, init.Rhs[0], singleDefs(info, fd.Body), nil, 0); ok && p[""] == -1 && len(p) == 2 {
+					for a, cf := range p {
+						if a != "" && cf == 1 && strings.HasPrefix(a, "len(") {
+							okDir = true
+						}
+					}
+				}
 			}
 		}
 		if okDir {
